@@ -24,6 +24,12 @@ TransWitness == IF \E j, k \in 1..N : Holds(R, i, j) /\ Holds(R, j, k) /\ ~Holds
                 THEN LET w == CHOOSE w \in (1..N) \X (1..N) : Holds(R, i, w[1]) /\ Holds(R, w[1], w[2]) /\ ~Holds(R, i, w[2])
                      IN <<i, w[1], w[2]>>
                 ELSE <<>>
+\* witnesses j of a failing generic-arguments-related law for left-hand type i
+GenWitness == IF IsPlain(Tys[i]) /\ Len(OneMem(Tys[i]).g) > 0
+              THEN {j \in 1..N : IsPlain(Tys[j]) /\ OneMem(Tys[j]).n = OneMem(Tys[i]).n /\ Len(OneMem(Tys[j]).g) = Len(OneMem(Tys[i]).g) /\ Holds(R, i, j)
+                                  /\ \E a \in 1..Len(OneMem(Tys[i]).g) : Has(Tys, OneMem(Tys[i]).g[a]) /\ Has(Tys, OneMem(Tys[j]).g[a])
+                                                                            /\ ~Holds(R, Idx(Tys, OneMem(Tys[i]).g[a]), Idx(Tys, OneMem(Tys[j]).g[a]))}
+              ELSE {}
 DriftRow == {j \in 1..N : (R[i][j] = 1) # Sub(Tys[i], Tys[j])}
 
 Global == [ universe_is_spec |-> TRUE,
@@ -35,6 +41,6 @@ Global == [ universe_is_spec |-> TRUE,
 
 Report == IF i = 0
           THEN PrintT("@@" \o ToJson([i |-> 0, global |-> Global]))
-          ELSE PrintT("@@" \o ToJson([i |-> i, failed |-> {LawNames[n] : n \in FailedLaws}, trans |-> TransWitness,
+          ELSE PrintT("@@" \o ToJson([i |-> i, failed |-> {LawNames[n] : n \in FailedLaws}, trans |-> TransWitness, gen |-> GenWitness,
                                       drift |-> Cardinality(DriftRow)]))
 =====================================================================================
